@@ -15,11 +15,11 @@ Explained(e) ==
   LET ideal == Observe(e.toks, {}) IN
   IF ideal.val.k = "undef" THEN TRUE      \* outside the specified domain
   ELSE IF e.obs = ideal THEN TRUE
-  ELSE \E d \in SeqToSet(e.devs) :
-         LET o == Observe(e.toks, {d}) IN
+  ELSE \E S \in (SUBSET SeqToSet(e.devs)) \ {{}} :
+         LET o == Observe(e.toks, S) IN
          /\ o # ideal
          /\ (o.val.k = "undef" \/ e.obs = o)
-         /\ PrintT(<<"MSG", "KNOWN", d, e.case>>)
+         /\ PrintT(<<"MSG", "KNOWN", S, e.case>>)
 
 Next == /\ l <= Len(Rec)
         /\ Explained(Rec[l])
